@@ -58,13 +58,15 @@ $(B)/T/%.o: scen/%.cpp $(B)/stamps/headers.sha $(wildcard scen/*.h scen/*.inc sc
 # ---- runtime and driver: never instrumented
 $(B)/rt/%.o: sim/%.cpp $(wildcard sim/*.h) | $(B)/rt
 	$(CXX) $(RTFLAGS) -c $< -o $@
+$(B)/rt/fidelity.o: driver/fidelity.cpp $(wildcard sim/*.h driver/*.h) | $(B)/rt
+	$(CXX) $(RTFLAGS) -c $< -o $@
 $(B)/rt/simcheck-A.o: driver/simcheck.cpp $(wildcard sim/*.h driver/*.h) | $(B)/rt
 	$(CXX) $(RTFLAGS) -DVERIF_FLAVOUR='"A"' -DVERIF_ASAN=1 -c $< -o $@
 $(B)/rt/simcheck-T.o: driver/simcheck.cpp $(wildcard sim/*.h driver/*.h) | $(B)/rt
 	$(CXX) $(RTFLAGS) -DVERIF_FLAVOUR='"T"' -c $< -o $@
 
-RT_A := $(addprefix $(B)/rt/,$(addsuffix .o,$(SIMSRC) heap_stub)) $(B)/rt/simcheck-A.o
-RT_T := $(addprefix $(B)/rt/,$(addsuffix .o,$(SIMSRC) heap tsan_abi)) $(B)/rt/simcheck-T.o
+RT_A := $(addprefix $(B)/rt/,$(addsuffix .o,$(SIMSRC) heap_stub fidelity)) $(B)/rt/simcheck-A.o
+RT_T := $(addprefix $(B)/rt/,$(addsuffix .o,$(SIMSRC) heap tsan_abi fidelity)) $(B)/rt/simcheck-T.o
 ASL_A := $(addprefix $(B)/A/asl_,$(addsuffix .o,$(ASL)))
 ASL_T := $(addprefix $(B)/T/asl_,$(addsuffix .o,$(ASL)))
 
